@@ -31,8 +31,11 @@ Record rep := mkRep {
    (non-blocking) send to a busy pipe gives the reply slot back; pf_saio: a send
    while the context's previous reply still waits for its pipe is refused with
    NNG_ESTATE before anything is touched (pinned: ctx->saio is overwritten and the
-   list node appended twice -- an assertion failure in list.c). *)
-Record pfix := mkPfix { pf_rclose : bool; pf_nbsend : bool; pf_saio : bool }.
+   list node appended twice -- an assertion failure in list.c); pf_wbusy: the
+   writable pollable follows the state of the socket's reply pipe (cleared when
+   the socket takes a request from a busy pipe, and when another context starts
+   sending on the pipe the socket would reply on; pinned: only ever raised there). *)
+Record pfix := mkPfix { pf_rclose : bool; pf_nbsend : bool; pf_saio : bool; pf_wbusy : bool }.
 
 Definition pctx_init : pctx := mkPctx 0 [] None None.
 Definition rep_init : rep := mkRep [(0%N, pctx_init)] [] [] [] [] [] [] [] false false 8.
@@ -65,18 +68,22 @@ Definition rep_ctx_send (pf : pfix) (s : rep) (k : N) (c : pctx) (a : aioid) (nb
     let m' := rep_send bt m in
     if negb (has_id p (rp_pipes s2)) then (s2, [Complete a E_OK None; Free m'])   (* pipe is gone *)
     else if negb (has_id p (rp_busy s2)) then
-      (rp_set_sending (rp_set_pipes s2 (rp_pipes s2) (rp_busy s2 ++ [p]) (rp_pclosed s2)) ((p, m') :: assoc_del p (rp_sending s2)),
+      let s3 := if pf_wbusy pf && N.eqb p (master_pipe s2) then rp_set_writable s2 false else s2 in
+      (rp_set_sending (rp_set_pipes s3 (rp_pipes s3) (rp_busy s3 ++ [p]) (rp_pclosed s3)) ((p, m') :: assoc_del p (rp_sending s3)),
        [TranSend p m'; Complete a E_OK None])
     else if nb then ((if pf_nbsend pf then rp_put s2 k c else s2), [Complete a E_AGAIN None])
     else (rp_set_sendq (rp_put s2 k (mkPctx 0 [] (Some (a, m')) (rc_raio c))) (rp_sendq s2 ++ [(p, k)]), []).
 
 (* the context takes a parsed request: backtrace and origin pipe are saved *)
-Definition rep_take (s : rep) (k : N) (c : pctx) (p : pid) (m : pmsg) (raio : option aioid) : rep :=
+Definition rep_take (pf : pfix) (s : rep) (k : N) (c : pctx) (p : pid) (m : pmsg) (raio : option aioid) : rep :=
   let s1 := rp_put s k (mkPctx p (pm_hdr m) (rc_saio c) raio) in
-  if N.eqb k 0 && negb (has_id p (rp_busy s)) then rp_set_writable s1 true else s1.
+  if N.eqb k 0
+  then (if negb (has_id p (rp_busy s)) then rp_set_writable s1 true
+        else if pf_wbusy pf then rp_set_writable s1 false else s1)
+  else s1.
 
 (* ---- rep0_ctx_recv ---- *)
-Definition rep_ctx_recv (s : rep) (k : N) (c : pctx) (a : aioid) (nb : bool) : rep * list pout :=
+Definition rep_ctx_recv (pf : pfix) (s : rep) (k : N) (c : pctx) (a : aioid) (nb : bool) : rep * list pout :=
   match rp_holding s with
   | [] =>
       if nb then (s, [Complete a E_AGAIN None])           (* nni_aio_start comes first *)
@@ -88,7 +95,7 @@ Definition rep_ctx_recv (s : rep) (k : N) (c : pctx) (a : aioid) (nb : bool) : r
       let s1 := rp_set_holding s rest in
       let s2 := if is_nil rest then rp_set_readable s1 false else s1 in
       (* ctx->raio is not touched on this path *)
-      (rep_take s2 k c p m (rc_raio c), [TranRecv p; Complete a E_OK (Some (rep_deliver m))])
+      (rep_take pf s2 k c p m (rc_raio c), [TranRecv p; Complete a E_OK (Some (rep_deliver m))])
   end.
 
 Fixpoint find_pctx (f : pctx -> bool) (l : list (N * pctx)) : option (N * pctx) :=
@@ -140,7 +147,7 @@ Definition rep_step (pf : pfix) (s : rep) (o : pop) : rep * list pout :=
       end
   | PRecv c a nb =>
       match rp_get s (ckey c) with
-      | Some cx => rep_ctx_recv s (ckey c) cx a nb
+      | Some cx => rep_ctx_recv pf s (ckey c) cx a nb
       | None => (s, [Complete a E_CLOSED None])
       end
   | PCancel a rv =>
@@ -203,7 +210,7 @@ Definition rep_step (pf : pfix) (s : rep) (o : pop) : rep * list pout :=
                   match rp_get s k with
                   | Some c =>
                       match rc_raio c with
-                      | Some a => (rep_take (rp_set_recvq s rest) k c p m' None, [TranRecv p; Complete a E_OK (Some (rep_deliver m'))])
+                      | Some a => (rep_take pf (rp_set_recvq s rest) k c p m' None, [TranRecv p; Complete a E_OK (Some (rep_deliver m'))])
                       | None => (rp_set_recvq s rest, [Free m'])                   (* not reachable *)
                       end
                   | None => (rp_set_recvq s rest, [Free m'])                       (* not reachable *)
